@@ -278,9 +278,12 @@ Definition winch (s : scr) : scr := mkScr [] (s_ru s) (s_cy s) true (s_g1 s).
 (* parse_input: the "window resize" key is delivered *)
 Definition ack (s : scr) : scr := mkScr (s_buf s) (s_ru s) (s_cy s) false (s_g1 s).
 
-(* Screen.draw_screen((maxcol, maxrow), canvas); [same] = "canvas is self._screen_buf_canvas" *)
+(* Screen.draw_screen((maxcol, maxrow), canvas); [same] = "canvas is self._screen_buf_canvas";
+   [interrupted] = SIGWINCH is delivered while the rows are being produced (the handler sets _resized
+   and forgets the screen buffer): the second "if self._resized: return" abandons the frame before
+   anything but the G1 designation is written, and the screen buffer is NOT updated *)
 Definition draw_screen (c : cfg) (s : scr) (maxcol maxrow : Z) (rows : list crow) (cursor : option (Z * Z)) (same : bool)
-  : result (list tok * scr) :=
+                       (interrupted : bool) : result (list tok * scr) :=
   if negb (maxrow =? zlen rows) then Err ValueError else
   if (match s_buf s with [] => false | _ => true end) && same then Ok ([], s) else
   let t_g1 := if s_g1 s then [] else [TG1] in
@@ -295,7 +298,8 @@ Definition draw_screen (c : cfg) (s : scr) (maxcol maxrow : Z) (rows : list crow
                        | Some (x, y) => (set_cursor_position partial (d_cy acc) x y ++ [TShow], y)
                        | None => ([], d_cy acc)      (* the output cursor stays on the last row drawn *)
                        end in
-  Ok (t_g1 ++ d_out acc ++ t_ibm ++ t_cur, mkScr (d_sb acc) (d_ru acc) cy' false true)).
+  if interrupted then Ok (t_g1, mkScr [] (d_ru acc) cy' true true)
+  else Ok (t_g1 ++ d_out acc ++ t_ibm ++ t_cur, mkScr (d_sb acc) (d_ru acc) cy' false true)).
 
 (* ---------- wire format ---------- *)
 Definition dec_bool (z : Z) : bool := negb (z =? 0).
@@ -333,21 +337,21 @@ Definition dec_run (l : list Z) : option (crun * list Z) :=
 Definition dec_row (l : list Z) : option (crow * list Z) := dec_counted dec_run l.
 
 Inductive frame :=
-  | FDraw (cols rows size_rows scramble : Z) (same : bool) (cursor : option (Z * Z)) (content : list crow)
+  | FDraw (cols rows size_rows scramble : Z) (same : bool) (intr : bool) (cursor : option (Z * Z)) (content : list crow)
   | FClear (scramble : Z)
   | FWinch
   | FAck.
 
 Definition dec_frame (l : list Z) : option (frame * list Z) :=
   match l with
-  | 1 :: cols :: rows :: srows :: scr_ :: same :: r =>
+  | 1 :: cols :: rows :: srows :: scr_ :: same :: intr :: r =>
       match (match r with
              | 0 :: r' => Some (None, r')
              | 1 :: x :: y :: r' => Some (Some (x, y), r')
              | _ => None end) with
       | Some (cur, r1) =>
           match dec_counted dec_row r1 with
-          | Some (content, r2) => Some (FDraw cols rows srows scr_ (dec_bool same) cur content, r2)
+          | Some (content, r2) => Some (FDraw cols rows srows scr_ (dec_bool same) (dec_bool intr) cur content, r2)
           | None => None
           end
       | None => None
@@ -373,7 +377,7 @@ Definition run_frame (c : cfg) (partial : bool) (origin : Z) (st : scr * option 
       ((clear s, t'), enc_frame_out 0 [] t')
   | FWinch => ((winch s, t), enc_frame_out 0 [] t)
   | FAck => ((ack s, t), enc_frame_out 0 [] t)
-  | FDraw cols rows srows k same cur content =>
+  | FDraw cols rows srows k same intr cur content =>
       let t1 := match t with
                 | None =>
                     let t0 := new_term cols rows in
@@ -383,7 +387,7 @@ Definition run_frame (c : cfg) (partial : bool) (origin : Z) (st : scr * option 
                     if (t_cols t0 =? cols) && (t_rows t0 =? rows) then t0
                     else resize t0 cols rows (if 0 <=? k then k else 0)
                 end in
-      match draw_screen c s cols srows content cur same with
+      match draw_screen c s cols srows content cur same intr with
       | Ok (toks, s') =>
           let t2 := run t1 toks in
           ((s', Some t2), enc_frame_out 0 toks (Some t2))
